@@ -77,6 +77,17 @@ impl Rs {
 // check_stack by its contract, recording that this activation has probed
 #[verifier::external_body]
 fn check_stack_probe(me: &mut Rs, s: SpanH) -> (r: Result<(), RtErr>) ensures r is Ok ==> final(me).probed@ { unimplemented!() }
+// the statement executor's view: expressions are evaluated THROUGH eval_expr (which probes); the call machinery below it is not an entry point
+pub struct Xs { pub g: Ghost<int> }
+pub struct CallH { pub g: Ghost<int> }
+pub enum FlowOut { Return(ValOut) }
+impl Xs {
+    #[verifier::external_body] pub fn eval_expr<'x>(&mut self, e: &'x Expr<'x>) -> (r: Result<ValOut, RtErr>) { unimplemented!() }
+    // eval_function_call / eval_member_call / eval_builtin_call recurse into the callee's body: reached from eval_expr only, so that every
+    // cycle of calls passes a probe
+    #[verifier::external_body] pub fn eval_function_call<'x>(&mut self, c: &'x Expr<'x>) -> (r: Result<ValOut, RtErr>) requires false { unimplemented!() }
+}
+#[verifier::external_body] fn null_out() -> (r: ValOut) { unimplemented!() }
 #[verifier::external_body]
 fn wrapping_sub(a: usize, b: usize) -> (r: usize) ensures r == (if a >= b { a - b } else { a + 0x1_0000_0000_0000_0000 - b }) { a.wrapping_sub(b) }
 // --- the parser's own recursion guard
@@ -162,5 +173,13 @@ UNIT = VUnit(
            rewrites=[Rw("R9", r"self\.check_stack\(expr\.span\(\)\)\?;", "check_stack_probe(me, expr.span())?;", min_matches=1),
                      Rw("R11", r"match expr \{.*\n        \}", "me.eval_dispatch(expr)", min_matches=1)],
            vacuity="-", real_name="Runtime::eval_expr (the probe comes first)"),
+        # `return e`: e is evaluated through eval_expr like every other expression (a shortcut straight into the call machinery would let a
+        # cycle of `return f()` calls recurse without ever probing the stack)
+        Block("return_stmt", source="src/runtime.rs", within="exec_stmt", impl="impl Runtime", arm=True,
+              anchor=r"Stmt::Return \{ expr, \.\. \} =>",
+              sig="fn return_stmt<'x>(me: &mut Xs, expr: &Option<&'x Expr<'x>>) -> (res: Result<FlowOut, RtErr>)",
+              rewrites=[Rw("R9", r"self\.(eval_expr|eval_function_call)\(", r"me.\1(", min_matches=1),
+                        Rw("R8", r"Value::Null", "null_out()", min_matches=1), Rw("R8", r"ExecFlow::Return\(", "FlowOut::Return(", min_matches=1)],
+              real_name="Runtime::exec_stmt (Stmt::Return arm: evaluation goes through the probing entry point)"),
     ],
 )
